@@ -211,8 +211,12 @@ func (m *master) runChunk(c chunk) {
 					m.write(l)
 				}
 			case <-timer.C:
-				cmd.Process.Signal(syscall.SIGKILL)
-				killed = true
+				if !killed {
+					// ask the Go runtime for a goroutine dump (SIGQUIT), then make sure it is gone
+					cmd.Process.Signal(syscall.SIGQUIT)
+					time.AfterFunc(3*time.Second, func() { cmd.Process.Signal(syscall.SIGKILL) })
+					killed = true
+				}
 			}
 		}
 		timer.Stop()
@@ -231,8 +235,20 @@ func (m *master) runChunk(c chunk) {
 			if retries[hangID] > 8 {
 				from = hangID + 1
 			}
+		case killed && retries[-1-last] == 0:
+			// no output for the whole backstop period and no hang report: retry the vector once
+			// (a stalled machine must not cost a verdict); only a second stall is recorded
+			retries[-1-last]++
+			from = last
 		case killed:
-			b, _ := json.Marshal(rec{T: "hang", ID: last, Op: "unknown (worker killed by the backstop timer)"})
+			dump := stderr.String()
+			if i := strings.Index(dump, "goroutine 1 ["); i >= 0 {
+				dump = dump[i:]
+			}
+			if len(dump) > 1500 {
+				dump = dump[:1500]
+			}
+			b, _ := json.Marshal(rec{T: "hang", ID: last, Op: "unknown (worker killed by the backstop timer)", Got: dump})
 			m.write(b)
 			m.mu.Lock()
 			m.hangs++
